@@ -1331,7 +1331,7 @@ fn gen_c16(t: &mut Tape, labels: &mut Vec<&'static str>) -> Option<CliCase> {
             labels.push("ignore:cwd");
         }
         if t.chance(70) {
-            case.files.insert("sub/.styluaignore".into(), ["top.lua\n", "more/\n", "!inner.lua\n", "/skip.lua\n"][t.pick(4)].as_bytes().to_vec());
+            case.files.insert("sub/.styluaignore".into(), ["top.lua\n", "more/\n", "!inner.lua\n", "/skip.lua\n", "deep.lua\n", "more/z.lua\n", "**/z.lua\n!top.lua\n"][t.pick(7)].as_bytes().to_vec());
             labels.push("ignore:nested");
         }
     }
@@ -1418,6 +1418,24 @@ fn gen_c16(t: &mut Tape, labels: &mut Vec<&'static str>) -> Option<CliCase> {
             files.rotate_left(k);
         }
         _ => {}
+    }
+    // now and then the tool runs from `sub`: ignore files above the working directory still apply
+    if t.chance(50) && present.iter().any(|p| p.starts_with("sub/")) {
+        case.cwd = "sub".into();
+        let mut inner: Vec<String> = Vec::new();
+        for f in &files {
+            if f == "." || f == "sub" {
+                inner.push(".".into());
+            } else if let Some(r) = f.strip_prefix("sub/") {
+                inner.push(r.to_string());
+            }
+        }
+        // `.` next to another argument would spell the same files in two ways (KF-C16-path-spelling)
+        if inner.is_empty() || inner.iter().any(|f| f == ".") {
+            inner = vec![".".into()];
+        }
+        files = inner;
+        labels.push("cwd:sub");
     }
     if use_globs {
         argv.push("--".into());
